@@ -164,6 +164,14 @@ def get_values(inst, t: L.Ty):
     return inst
 
 
+def _vname(E, msg) -> str:
+    """name prefix of the symbolic value of ONE run: unique per message and per run, so that the preconditions assumed for one run
+    (e.g. in-range values when decoding) never constrain another run of the same proof path whose fields happen to have the same
+    names (they did until wave 4 of the seeded changes exposed it: S1's encode was only proved for in-range x after S0's decode)"""
+    E.run_n = getattr(E, "run_n", 0) + 1              # reset by Engine.explore at the start of every path
+    return "v%d<%s>" % (E.run_n, "".join(L._path(msg)))
+
+
 def _mk(E):
     def mk(name):
         if E.concrete is not None:      # replay: the counter-model's value (don't-care leaves: 0)
@@ -179,7 +187,7 @@ def run_encode(E: EN.Engine, cls, msg: L.Message, mods, constrain: str = "typed"
     (any 128-bit integer: field containment for out-of-range values, C07)."""
     E.cur_props = [p for p in E.props if p in ("C01", "C07", "C12", "C14")]
     leaves: list = []
-    v = L.fresh_value(msg, "v", leaves, _mk(E))
+    v = L.fresh_value(msg, _vname(E, msg), leaves, _mk(E))
     for name, term, r in leaves:
         if constrain == "all" or isinstance(r, (L.Bool, L.Byte, L.Enum)):
             E.assume(L.in_range(term, r))
@@ -203,7 +211,7 @@ def run_decode(E: EN.Engine, cls, msg: L.Message, mods, sender: L.Message = None
     E.cur_props = [p for p in E.props if p in ("C02", "C05", "C07", "C12", "C14")]
     src = sender or msg
     leaves: list = []
-    v = L.fresh_value(src, "v", leaves, _mk(E))
+    v = L.fresh_value(src, _vname(E, src), leaves, _mk(E))
     for name, term, r in leaves:
         E.assume(L.in_range(term, r))
     E.cover(label + "/requires")
@@ -305,7 +313,7 @@ def run_json(E: EN.Engine, cls, msg: L.Message, mods, bp):
     field-number order whose values are the field values (nested messages as objects, arrays - byte arrays included - as lists)"""
     E.cur_props = ["C16"]
     leaves: list = []
-    v = L.fresh_value(msg, "v", leaves, _mk(E))
+    v = L.fresh_value(msg, _vname(E, msg), leaves, _mk(E))
     for name, term, r in leaves:
         E.assume(L.in_range(term, r))
     E.cover("json/requires")
